@@ -62,6 +62,45 @@ claim("C15",
       "machine-checked proof in Rocq (Coq 8.16, std++) of a Gallina codec model + source-shape translator with per-run obligations + model/code correspondence + session monitor",
       "DESIGN.md section 7, C15")
 
+W_NOTE = 'Trusted: Coq kernel + VM; std++ 1.8; the hand-written models Model/World.v and Model/Load.v are tied to worlds/NSEGameCoordinator.py by differential execution only (walks of the real step/reset/register_agent started through the real start_tasks, compared inside Coq after every operation); the cyst stub package; the Python reference harness/worldlib.py (the property statement used as monitor); IPv4 addresses as 32-bit numbers, strings interned.'
+W_TECH = 'machine-checked proof in Rocq (Coq 8.16, std++) over a Gallina world model + model/code correspondence by walks + reference monitor'
+
+claim("C02",
+      "Rocq theorem C02_noop over the Gallina world model: for ALL worlds, ALL views (reachable or not) and ALL actions, if the "
+      "action's precondition (source controlled, firewall allows source->target, action-specific guard) fails then step returns "
+      "exactly the previous view and the identical world (Leibniz equality of every table); C02_pre_* spell the preconditions out "
+      "per action type as the property states them. Tie: correspondence of Model/World.v with the six action implementations on "
+      "walks over shipped and generated scenarios (firewall on/off, perturbed unreachable views, parameters over non-existing "
+      "hosts/services/data); the ops whose precondition fails are the ones counted for this property; an independent Python "
+      "reference of the statement supplies failing inputs.", W_NOTE, W_TECH, "DESIGN.md section 7, C02")
+claim("C03",
+      "Rocq theorems giving the exact effect of each action in closed form when its precondition holds (C03_scan, "
+      "C03_find_services + C03_services_all, C03_find_data, C03_exploit, C03_exfiltrate + C03_shared, C03_block_connectivity, "
+      "C03_block_recorded) and completeness of the loader against the scenario definition (C03_load_ifaces, C03_load_services, "
+      "C03_load_data: EVERY datapoint of every service; *_exact: nothing else; C03_scan_complete). Tie: correspondence of "
+      "Model/Load.v with _process_cyst_config on an independent reading of the scenario objects, of init_view with "
+      "_create_state_from_view, and of Model/World.v on the ops whose precondition holds; Python reference monitor.",
+      W_NOTE, W_TECH, "DESIGN.md section 7, C03")
+claim("C08",
+      "Rocq theorems: no action changes the static tables or pristine copies (C08_static); after ANY sequence of actions by any "
+      "agents reset yields the initially loaded world (C08_restore: reset (play (load sc) l) = load sc), hence identical "
+      "observation sequences for the same script in every episode (C08_independent). Tie: correspondence on multi-episode walks "
+      "with resets (tables compared with the model after every reset) and a monitor comparing the implementation's tables after "
+      "each reset with their initial condition.", W_NOTE + " Static addresses only (dynamic re-labelling is C13).", W_TECH, "DESIGN.md section 7, C08")
+claim("C11",
+      "Rocq theorems over all interleaved action sequences of any number of agents: C11_invariant (every view stays well-formed: "
+      "controlled <= known hosts, services only for known hosts, data only on controlled hosts; and anchored: hosts exist, services "
+      "belong to the host's node, data is located on the host's node), C11_mono (networks, hosts, controlled hosts, data and blocks "
+      "per host never shrink), with the one-step lemmas. 'A returned view is never modified later' is a heap-aliasing statement the "
+      "value-semantic model cannot express: it is decided by deep snapshots of every GameState returned by register/step/reset "
+      "re-compared after every later step (partial, labelled so).", W_NOTE, W_TECH, "DESIGN.md section 7, C11")
+claim("C12",
+      "Rocq theorems over the multi-agent state machine: C12_own / C12_no_gift (an action of agent b leaves every other agent's "
+      "view exactly as it was), C12_channel (a step depends on the world only through hosts, networks, services, data, firewall and "
+      "visible blocks), C12_world_changes (another agent can change those only by a successful exfiltration or BlockIP). Tie: "
+      "correspondence on interleavings of 2-3 agents sharing hosts (common exfiltration target, overlapping control) plus deep "
+      "snapshots of all agents' stored views (aliasing is outside the value-semantic model: partial).", W_NOTE, W_TECH, "DESIGN.md section 7, C12")
+
 
 def main():
     hooks = {
